@@ -56,6 +56,13 @@ static int id_pair(spif_obj_t o)
 }
 static int id_key(spif_obj_t o) { return cx_idt('k', o); }
 static int id_val(spif_obj_t o) { return cx_idt('v', o); }
+/* values are compared as objects: a url whose text is the label equals the str with that text, so one value in eight is a url
+ * (and probes are of either class whatever the stored one is) */
+static spif_obj_t new_val(int vid)
+{
+    if (vh_coin(12)) { char b[16]; snprintf(b, sizeof b, "v%03d", vid); vh_count("values_of_a_class_derived_from_str", 1); return SPIF_OBJ(spif_url_new_from_ptr(SPIF_CHARPTR(b))); }
+    return cx_newt('v', vid);
+}
 static const char *show_pair(int id)
 {
     static char bufs[8][24]; static int r;
@@ -165,7 +172,7 @@ static void readback(const char *op, int k, spif_map_t mp, const dict_t *s)
     }
     {
         int vid = (int) vh_below(NVAL), want = d_has_value(s, vid);
-        spif_obj_t probe = cx_newt('v', vid);
+        spif_obj_t probe = new_val(vid);
         spif_bool_t has = SPIF_MAP_HAS_VALUE(mp, probe);
         CX_DG(has);
         CX_CHECK(!!has == want, op, k, "has_value-readback", "has_value(%s) is %d, expected %d; model %s", show_v(vid), (int) has, want, show_dict(s));
@@ -250,7 +257,7 @@ static void step(int pi, int op, int kid, int vid, int after_set, int lk, int np
         spif_list_t l, r;
         switch (op) {
             case OP_SET: case OP_SET_PAIR:
-                ko = cx_newt('k', kid); vo = cx_newt('v', vid);
+                ko = cx_newt('k', kid); vo = new_val(vid);
                 if (op == OP_SET_PAIR) {
                     po = SPIF_OBJ(spif_objpair_new_from_both(ko, vo));
                     cx_del_str(ko); cx_del_str(vo);
@@ -291,7 +298,7 @@ static void step(int pi, int op, int kid, int vid, int after_set, int lk, int np
                 cx_del_str(ko);
                 break;
             case OP_HAS_VALUE:
-                vo = cx_newt('v', vid); b = SPIF_MAP_HAS_VALUE(mp, vo); CX_DG(b);
+                vo = new_val(vid); b = SPIF_MAP_HAS_VALUE(mp, vo); CX_DG(b);
                 CX_CHECK(!!b == d_has_value(&before, vid), on, k, "result", "has_value(v%03d) on %s returned %d", vid, show_dict(&before), (int) b);
                 cx_del_str(vo);
                 if (vid % 5 == 0) {
